@@ -80,3 +80,73 @@ pub proof fn lemma_trunc_div_i64(a: int, b: int)
         }
     }
 }
+
+// ---- powers with huge exponents -------------------------------------------------------------
+pub proof fn lemma_pow_small_base(b: int, n: nat)
+    requires -1 <= b <= 1, n >= 1,
+    ensures pow_int(b, n) == (if b == 0 { 0int } else if b == 1 { 1int } else if n % 2 == 0 { 1int } else { -1int }),
+    decreases n,
+{
+    let m = (n - 1) as nat;
+    assert(pow_int(b, n) == b * pow_int(b, m));
+    if n > 1 {
+        lemma_pow_small_base(b, m);
+        let p = pow_int(b, m);
+        if b == 0 { assert(b * p == 0); }
+        else if b == 1 { assert(b * p == p); }
+        else { assert(b * p == -p); }
+    } else {
+        assert(pow_int(b, 0) == 1);
+        assert(b * 1 == b);
+    }
+}
+
+pub proof fn lemma_pow_abs_ge_pow2(b: int, n: nat)
+    requires iabs(b) >= 2,
+    ensures iabs(pow_int(b, n)) >= pow_int(2, n), pow_int(2, n) >= 1,
+    decreases n,
+{
+    if n > 0 {
+        lemma_pow_abs_ge_pow2(b, (n - 1) as nat);
+        let p = pow_int(b, (n - 1) as nat);
+        let q = pow_int(2, (n - 1) as nat);
+        assert(iabs(b * p) >= 2 * q) by (nonlinear_arith) requires iabs(b) >= 2, iabs(p) >= q, q >= 1;
+    }
+}
+
+pub proof fn lemma_pow2_mono(m: nat, n: nat)
+    requires m <= n,
+    ensures pow_int(2, m) <= pow_int(2, n), pow_int(2, m) >= 1,
+    decreases n,
+{
+    if m < n {
+        lemma_pow2_mono(m, (n - 1) as nat);
+    } else {
+        lemma_pow_abs_ge_pow2(2, m);
+    }
+}
+
+pub proof fn lemma_pow2_64()
+    ensures pow_int(2, 64) == 0x1_0000_0000_0000_0000int,
+{
+    assert(pow_int(2, 64) == 0x1_0000_0000_0000_0000int) by (compute_only);
+}
+
+/// everything the Exponent arm needs about exponents above u32::MAX
+pub proof fn lemma_pow_huge(b: int, n: int)
+    requires in64(b), in64(n),
+    ensures
+        n > u32::MAX && -1 <= b <= 1 ==> pow_int(b, n as nat) == pow_int(b, (2 - n % 2) as nat) && in64(pow_int(b, n as nat)),
+        n > u32::MAX && !(-1 <= b <= 1) ==> !in64(pow_int(b, n as nat)),
+{
+    if n > u32::MAX {
+        if -1 <= b <= 1 {
+            lemma_pow_small_base(b, n as nat);
+            lemma_pow_small_base(b, (2 - n % 2) as nat);
+        } else {
+            lemma_pow_abs_ge_pow2(b, n as nat);
+            lemma_pow2_mono(64, n as nat);
+            lemma_pow2_64();
+        }
+    }
+}
